@@ -81,6 +81,10 @@ DELIVERABLES in {base}/out/ :
    "ran": ["<commands you ran and what they printed, for both the unchanged and the changed tree>"]}}
 Verify both directions yourself (use `git diff > out/patch.diff` then `git apply -R out/patch.diff` / `git apply out/patch.diff`; NEVER use `git stash`: the stash is shared between all worktrees of the repository and other people work in sibling worktrees) before you finish, and leave the worktree
 WITH the change applied. Report in your final message: the change in one paragraph and the two demo results.
+ALSO: if, while exploring, you notice behaviour of the UNCHANGED tree that already seems to violate the
+property (a wrong result, a spurious rejection, something silently ignored, a crash on a valid program),
+list it at the END of your report under the heading "Already on the unchanged tree", each with a minimal
+program and what it does versus what the property demands. Do not use such behaviour for your change.
 """
     open(base + "/PROMPT.md", "w").write(prompt)
     print(base + "/PROMPT.md")
